@@ -121,6 +121,15 @@ func runImpl(ops []string) (lines []string, panicked string) {
 			case "used":
 				q.HandleTxUsed(u(w[1]))
 				line = op
+			case "usedn":
+				// one HandleTxsUsed call with several transactions, in the order given (the callers build
+				// the slice by ranging over a map / from the runtime's answer: any order)
+				var xs []uint64
+				for _, x := range strings.Split(w[1], ",") {
+					xs = append(xs, u(x))
+				}
+				q.HandleTxsUsed(xs)
+				line = op
 			case "forward":
 				q.Forward("s"+w[1], u(w[2]))
 				line = op
@@ -234,10 +243,20 @@ func genCase(r *hlib.Rng, nops int, res *hlib.Result) []string {
 		case k < 75:
 			ops = append(ops, "reset")
 			res.Count("op:reset")
-		case k < 87:
+		case k < 83:
 			if len(live) > 0 {
 				ops = append(ops, fmt.Sprintf("used %d", live[r.Intn(len(live))]))
 				res.Count("op:used")
+			}
+		case k < 87:
+			if len(live) > 1 {
+				n := 2 + r.Intn(3)
+				var xs []string
+				for i := 0; i < n; i++ {
+					xs = append(xs, fmt.Sprint(live[r.Intn(len(live))]))
+				}
+				ops = append(ops, "usedn "+strings.Join(xs, ","))
+				res.Count("op:usedn")
 			}
 		case k < 95:
 			a := r.Intn(nsenders)
